@@ -256,15 +256,16 @@ pub fn qnames(texts: &[&'static str]) -> Vec<QName> {
 
 /// Compare every lookup of the real zone with the model: each name x each type (single-type lookup),
 /// lookup_addrs, lookup_all, x search_below_cuts x checked/unchecked (unchecked only for names in the
-/// zone: for other names the contract allows anything).  Returns the first difference.
-pub fn compare_lookups(z: &HashMapTreeZone, m: &Model, names: &[QName], types: &[u16]) -> Result<u64, (String, String, String)> {
+/// zone: for other names the contract allows anything; not at all when `with_unchecked` is false).
+/// Returns the number of lookups compared, or the first difference.
+pub fn compare_lookups(z: &HashMapTreeZone, m: &Model, names: &[QName], types: &[u16], with_unchecked: bool) -> Result<u64, (String, String, String)> {
     let mut n = 0u64;
     for q in names {
         let inside = m.in_zone(&q.labels);
         for below in [false, true] {
             let base = m.resolve(&q.labels, below);
             for unchecked in [false, true] {
-                if unchecked && !inside { continue; }
+                if unchecked && !(inside && with_unchecked) { continue; }
                 let opt = || LookupOptions { unchecked, search_below_cuts: below };
                 let ctx = |what: &str| format!("{what} of {} (search_below_cuts={below}, unchecked={unchecked})", q.text);
                 for &t in types {
